@@ -20,6 +20,8 @@ type FaultWriter struct {
 	Failed     bool
 	AfterFail  int // Write calls made after the failure
 	AcceptedAt int // bytes accepted in total
+	// TookByteYetFailed: the failing call came through WriteByte and took its byte
+	TookByteYetFailed bool
 }
 
 func (w *FaultWriter) Write(p []byte) (int, error) {
@@ -48,7 +50,11 @@ func (w *FaultWriter) Write(p []byte) (int, error) {
 // writeByte / writeString: the optional fast paths an encoder may look for on its writer; each is
 // one call of the underlying FaultWriter.
 func (w *FaultWriter) writeByte(c byte) error {
-	_, err := w.Write([]byte{c})
+	n, err := w.Write([]byte{c})
+	if err != nil && n == 1 {
+		// WriteByte has no count to report: a caller cannot know that the byte was taken
+		w.TookByteYetFailed = true
+	}
 	return err
 }
 
